@@ -18,6 +18,11 @@ def sorted_disjoint(ranges):
     return And(*cs)
 
 
+def ascending_lo(ranges):
+    """range list ordered by lower bound (overlap allowed): what every producer of a bag bin's range list guarantees"""
+    return And(*([lo <= hi for lo, hi in ranges] + [l0 <= l1 for (l0, h0), (l1, h1) in zip(ranges, ranges[1:])]))
+
+
 def fresh_ranges(c, k, tag="r", wellformed=True):
     out = []
     for i in range(k):
@@ -78,7 +83,10 @@ def c_intersect(c, ka, kb):
           lambda tier, seed: [(k,) for k in range(0, 5)])
 def c_contains(c, k):
     from vsc.model.rangelist_model import RangelistModel
-    rs = fresh_ranges(c, k, wellformed=False)
+    rs = fresh_ranges(c, k)
+    # precondition derived from the call sites: every range list that reaches __contains__ (a bag bin's binspec) was produced
+    # by compact/intersect or by the partition, i.e. is ordered by lower bound (postconditions of those contracts)
+    c.assume(ascending_lo(rs))
     rm = RangelistModel([[lo, hi] for lo, hi in rs])
     v = c.fresh_int("v")
     got = v in rm
@@ -98,7 +106,8 @@ def bin_set(v, b):
     if n == "CoverpointBinSingleRangeModel":
         return And(v >= b.target_val_low, v <= b.target_val_high)
     if n == "CoverpointBinSingleBagModel":
-        return member(v, [(r[0], r[1]) for r in b.binspec.range_l])
+        from pyvc.sym import Ctx
+        return Ctx.cur.summarize(lambda: v in b.binspec)     # the bag's real membership test on the list the partition produced
     if n == "CoverpointBinSingleValModel":
         return lift(v) == b.target_val
     raise AssertionError("unexpected bin model " + n)
@@ -158,3 +167,29 @@ def c_mk_collection(c, k, n):
             hits.append(inb)
         c.prove("one bin per value: v has a bin iff it is listed (forall v)", Iff(Or(*hits), mem))
         c.prove("number of bins == number of values", off == N)
+
+
+@contract("coverage.bin.build_cov_model", ["C10"], ["vsc.coverage.bin.build_cov_model", "vsc.coverage.bin.__init__"],
+          lambda tier, seed: [(k, e) for k in (1, 2, 3) for e in (0, 1, 2)], max_paths=60000,
+          note="explicit bin: <= 3 listed values/ranges in any order and overlap, <= 2 excluded ranges (ascending, disjoint)")
+def c_bin_build(c, k, ke):
+    import vsc
+    from vsc.model.rangelist_model import RangelistModel
+    rs = fresh_ranges(c, k)
+    ex = fresh_ranges(c, ke, "x")
+    c.assume(sorted_disjoint(ex))
+    b = vsc.bin(*[(lo, hi) for lo, hi in rs])
+    excl = RangelistModel([[lo, hi] for lo, hi in ex])
+    m = b.build_cov_model(None, "b", excl)
+    v = c.fresh_int("v")
+    want = And(member(v, rs), Not(member(v, ex)))
+    if m is None:
+        c.prove("no bin model only if no listed value survives the exclusion (forall v)", Not(want))
+    else:
+        got = [(r[0], r[1]) for r in m.binspec.range_l]
+        c.prove("the bin's value set == listed values minus ignore/illegal values (forall v)", Iff(member(v, got), want))
+        # the intermediate shape of the range list is not fixed by the property: the bin's real membership test is run on
+        # the list this function produced (caller checked together with the callee's body)
+        c.prove("the bin's own membership test (RangelistModel.__contains__ on the produced list) accepts exactly that set",
+                Iff(c.summarize(lambda: v in m.binspec), want))
+        c.prove("the bin keeps its name", m.name == "b")
